@@ -46,6 +46,10 @@ def abstract(key):
         return _ev("raw", "", int(m.group(1)))
     if len(key) == 1 and ord(key) >= 128:
         return _ev("char", "", ord(key))
+    if len(key) == 2 and ord(key[0]) >= 128:          # double-byte character: both halves in one event
+        return _ev("dchar", "", ord(key[0]), 0, ord(key[1]))
+    if key.startswith("meta ") and len(key) == 7 and ord(key[5]) >= 128:
+        return _ev("dchar", "meta ", ord(key[5]), 0, ord(key[6]))
     if key.startswith("meta ") and len(key) == 6 and ord(key[5]) >= 128:
         return _ev("char", "meta ", ord(key[5]))
     return _ev("key", key)
@@ -162,6 +166,10 @@ def documented_atoms(mode):
         atoms += [bytes([c]) for c in (0xA1, 0xE9, 0xFF, 0x80)]
     else:
         atoms += ["字".encode("euc-jp"), "界".encode("euc-jp"), b"\xa4\xa2"]
+        # every boundary of the second-half ranges (64..126 after a lead >= 129, 128..255 after any lead), alone and followed by a key
+        for lead in (0x80, 0x81, 0xA4, 0xFE, 0xFF):
+            for trail in (0x20, 0x3F, 0x40, 0x41, 0x5C, 0x7E, 0x7F, 0x80, 0x81, 0xFE, 0xFF, 0x1B, 0x0D):
+                atoms += [bytes([lead, trail]), bytes([lead, trail, 0x41]), bytes([27, lead, trail])]
     return atoms
 
 
@@ -214,10 +222,15 @@ def run(chk):
     chk.add_mc("MC_InputDecoder_mid_timeouts", r2)
     if not r2.ok:
         chk.reject("C05.model." + str(r2.violated), {"model": "InputDecoder"}, {"tlc_trace": r2.trace[-5:]})
+    walpha = "{27, 91, 65, 164, 129, 128, 64, 63, 126, 127}"      # leads 128/129/164, second halves at both range boundaries
+    r3 = tlc.mc("InputDecoder", MC_CFG.format(n=4 if quick else 5, mode="wide", mid="FALSE", alpha=walpha), timeout=3000, heap="12g")
+    chk.add_mc("MC_InputDecoder_fragmentation_double_byte", r3)
+    if not r3.ok:
+        chk.reject("C05.model." + str(r3.violated), {"model": "InputDecoder"}, {"tlc_trace": r3.trace[-5:]})
     traces = []
     for mode in MODES:
         atoms = documented_atoms(mode)
-        refcheck = mode != "wide"
+        refcheck = True
         # every documented atom on its own, every cut
         for a in atoms:
             traces.append(trace_for(rng, mode, a, 0, refcheck, all_cuts=True))
@@ -259,7 +272,7 @@ def run(chk):
     chk.cov["exhaustive"] = True
     chk.sample({"mode": traces[5]["mode"], "stream": traces[5]["stream"], "events": traces[5]["ev"][:3]})
     chk.cov["trusted_base"] = ["TLC", "InputTable.tla (frozen documented table)", "InputDecoderOps.tla reference decoder", "vf/props/c05.py Rig (real Screen.parse_input)"]
-    chk.assumptions += ["in wide (double-byte) mode the reference is not applied: only never-raises, byte accounting and fragmentation invariance",
+    chk.assumptions += ["in wide (double-byte) mode a byte >= 128 pairs with a following possible second half (128..255, or 64..126 after a lead >= 129): the pairing rule of urwid's documented double-byte handling, not of one particular encoding",
                         "malformed mouse / cursor reports: result unspecified, only robustness and fragmentation invariance are checked"]
 
 
@@ -273,7 +286,7 @@ def replay(chk, path):
     if rp.get("cuts") is not None:
         ev.append(dict(deliver(rp["mode"], rp["stream"], rp["cuts"], rp.get("timeouts") or [], rp.get("empties") or []), t="frag", cuts=rp["cuts"],
                        timeouts=rp.get("timeouts") or [], empties=rp.get("empties") or []))
-    tr = {"mode": rp["mode"], "stream": rp["stream"], "refcheck": rp["mode"] != "wide", "ev": ev}
+    tr = {"mode": rp["mode"], "stream": rp["stream"], "refcheck": True, "ev": ev}
     res = tlc.validate("InputTrace", [tr])
     chk.add_tv("replay", res)
     _handle(chk, [tr], res)
